@@ -89,7 +89,7 @@ func shadowSites(c *Ctx, pkgs ...string) (n int, out []shadowSite) {
 								return true
 							})
 							// the inner variable is used for nothing but tests / logging inside the block?
-							if readAfter && !assignedInside {
+							if readAfter && !assignedInside && !meaningfulUse(p.TypesInfo, fd.Body, inner) {
 								out = append(out, shadowSite{id.Pos(), id.Name, short(p.PkgPath) + "." + fd.Name.Name})
 							}
 						}
@@ -143,6 +143,61 @@ func shadowSites(c *Ctx, pkgs ...string) (n int, out []shadowSite) {
 	}
 	sort.Slice(out, func(i, j int) bool { return out[i].pos < out[j].pos })
 	return
+}
+
+// meaningfulUse tells whether the variable's value goes anywhere: it is returned, assigned on, stored, sent or
+// handed to a function that is not a logger / formatter. A variable that is only tested and logged is a dead end.
+func meaningfulUse(info *types.Info, body *ast.BlockStmt, v *types.Var) bool {
+	found := false
+	var stack []ast.Node
+	ast.Inspect(body, func(x ast.Node) bool {
+		if x == nil {
+			stack = stack[:len(stack)-1]
+			return true
+		}
+		stack = append(stack, x)
+		id, ok := x.(*ast.Ident)
+		if !ok || info.Uses[id] != v {
+			return true
+		}
+		for i := len(stack) - 2; i >= 0; i-- {
+			switch a := stack[i].(type) {
+			case *ast.ReturnStmt, *ast.SendStmt, *ast.CompositeLit, *ast.KeyValueExpr:
+				found = true
+			case *ast.AssignStmt:
+				for _, rhs := range a.Rhs {
+					if rhs.Pos() <= id.Pos() && id.End() <= rhs.End() {
+						found = true
+					}
+				}
+			case *ast.CallExpr:
+				if a.Fun.Pos() <= id.Pos() && id.End() <= a.Fun.End() {
+					// the variable is (part of) the function expression: a method call on it
+					if sel, ok := a.Fun.(*ast.SelectorExpr); ok {
+						_ = sel
+						found = true
+					}
+					continue
+				}
+				if sel, ok := a.Fun.(*ast.SelectorExpr); ok {
+					if pk, ok := sel.X.(*ast.Ident); ok && (pk.Name == "log" || pk.Name == "fmt") {
+						if pk.Name == "fmt" && (strings.HasPrefix(sel.Sel.Name, "Errorf") || strings.HasPrefix(sel.Sel.Name, "Sprint")) {
+							continue // the formatted value may go on: decided by the ancestors
+						}
+						return true // logging: a dead end, stop looking at this use
+					}
+				}
+				found = true
+			case *ast.IfStmt, *ast.BlockStmt, *ast.SwitchStmt, *ast.ForStmt, *ast.ExprStmt:
+				return true
+			}
+			if found {
+				return true
+			}
+		}
+		return true
+	})
+	return found
 }
 
 // ---------------------------------------------------------------------------
@@ -320,3 +375,641 @@ func probeRound12(c *Ctx) {
 }
 
 var _ = ssa.Value(nil)
+
+var shadowExempt = map[string]string{
+	"modules.Start/err":                   "the inner err belongs to the command line operation: it is printed and Start returns ErrCleanExit in that block",
+	"updater.DownloadUpdates/reportError": "a defect outside the 20 properties (the registry state always reports a nil download error); listed in DESIGN 10.27, not repaired",
+}
+
+func shadowRule(rule string, why string, pkgs ...string) ruleFn {
+	return func(c *Ctx, r *Report) {
+		n, sites := shadowSites(c, pkgs...)
+		bad := 0
+		for _, s := range sites {
+			if _, ok := shadowExempt[s.fn+"/"+s.name]; ok {
+				continue
+			}
+			bad++
+			r.Bad(rule, s.fn+" / inner := of "+s.name+" while the outer "+s.name+" is read after the block", why, c.Pos(s.pos))
+		}
+		if bad == 0 {
+			r.Trivial(rule, strings.Join(pkgs, ", ")+" / no result-carrying variable is shadowed by an inner :=", fmt.Sprintf("%d inner declarations of an outer same-typed name examined, the confirmed harmless ones are listed in the checker", n))
+		}
+	}
+}
+
+var partialCopyExempt = map[string]string{
+	"api.authenticateRequest/AuthToken": "the copy handed to the handler carries the permissions only; the expiry stays with the authenticator's token",
+	"updater.Export/Resource":           "Export documents that only the exposed attributes are copied",
+}
+
+func partialCopyRule(rule string, why string, pkgs ...string) ruleFn {
+	return func(c *Ctx, r *Report) {
+		n, sites := partialCopySites(c, pkgs...)
+		bad := 0
+		for _, s := range sites {
+			if _, ok := partialCopyExempt[s.fn+"/"+s.typ]; ok {
+				continue
+			}
+			bad++
+			r.Bad(rule, fmt.Sprintf("%s / hand-written copy of %s leaves out %s", s.fn, s.typ, strings.Join(s.missing, ", ")), why, c.Pos(s.pos))
+		}
+		if bad == 0 {
+			r.Trivial(rule, strings.Join(pkgs, ", ")+" / hand-written struct copies are complete", fmt.Sprintf("%d field-by-field copies examined, the documented partial ones are listed in the checker", n))
+		}
+	}
+}
+
+func c15R14(c *Ctx, r *Report) {
+	const rule = "C15-R14"
+	r.SetFloor(rule, 1)
+	n, bad := priorityNameSites(c, "modules")
+	if n == 0 {
+		r.Undecided(rule, "modules / priority-named identifiers", "no use of a priority-named constant in a priority-named function found")
+		return
+	}
+	r.Check(len(bad) == 0, rule, "modules / a function named for one priority uses that priority's constants", fmt.Sprintf("%d uses of priority-named constants, each in a function of the same priority", n),
+		"a function named for one priority uses another priority's constant: the documented default delay of that priority is replaced by another one, so a task waits shorter (and exceeds the limit earlier) or longer than its priority says: "+strings.Join(bad, "; "), firstPos(bad))
+}
+
+// originsRule: the value stored / returned / sent at the selected instructions has only origins accepted by ok.
+func storeOriginRule(c *Ctx, r *Report, rule, owner, field string, inFns []string, ok func(o string) bool, want, why string, floor int) {
+	r.SetFloor(rule, floor)
+	for i, s := range c.StoresTo(owner, field) {
+		fk := fnKey(outerFn(s.Fn))
+		if inFns != nil && !inList(fk, inFns) {
+			continue
+		}
+		var other []string
+		for _, o := range c.Origins(s.Instr.(*ssa.Store).Val) {
+			if !ok(o) {
+				other = append(other, o)
+			}
+		}
+		r.Check(len(other) == 0, rule, fmt.Sprintf("%s / store #%d to %s.%s", fk, i, owner, field), want, why+" (stored: "+strings.Join(other, ", ")+")", c.Pos(s.Instr.Pos()))
+	}
+}
+
+func c05R18(c *Ctx, r *Report) {
+	storeOriginRule(c, r, "C05-R18", "modules.Module", "Ctx", nil, func(o string) bool { return o == "call:context.WithCancel#0" }, "the module context comes from context.WithCancel",
+		"a module context that is not cancelable is installed: work started before the (next) start - in the prep function, right after Register - runs with a context that the stop never cancels, the stop waits out its timeout and reports the module offline while the work still runs", 2)
+}
+
+// c05R19: runWorker calls the worker function on every path to a return.
+func c05R19(c *Ctx, r *Report) {
+	const rule = "C05-R19"
+	r.SetFloor(rule, 1)
+	const fname = "modules.(*Module).runWorker"
+	fn := c.Func(fname)
+	if fn == nil {
+		r.Undecided(rule, fname, "anchor function missing")
+		return
+	}
+	isFnCall := func(in ssa.Instruction) bool {
+		ci, ok := in.(*ssa.Call)
+		if !ok {
+			return false
+		}
+		p, ok := ci.Call.Value.(*ssa.Parameter)
+		return ok && p.Name() == "fn"
+	}
+	x := ReachInstr(fn, nil, isExit, isFnCall)
+	r.Check(x == nil, rule, fname+" / the worker function is called on every path", "every return is preceded by the call of fn",
+		"runWorker returns without calling the worker function on some path: a worker started on a stopping or stopped module is silently skipped instead of being run with the cancelled context (a stop function that flushes through RunWorker loses its flush)", posOf(c, x))
+}
+
+// c06R21: stopAllTasks takes the stop function's result on every path to its report.
+func c06R21(c *Ctx, r *Report) {
+	const rule = "C06-R21"
+	r.SetFloor(rule, 1)
+	const fname = "modules.(*Module).stopAllTasks"
+	fn := c.Func(fname)
+	if fn == nil {
+		r.Undecided(rule, fname, "anchor function missing")
+		return
+	}
+	isResultChan := func(v ssa.Value) bool {
+		for _, o := range c.Origins(v) {
+			if strings.HasSuffix(o, "startCtrlFn#0") {
+				return true
+			}
+		}
+		return false
+	}
+	isRecv := func(in ssa.Instruction) bool {
+		switch x := in.(type) {
+		case *ssa.UnOp:
+			return x.Op == token.ARROW && isResultChan(x.X)
+		case *ssa.Select:
+			for _, st := range x.States {
+				if st.Dir == types.RecvOnly && isResultChan(st.Chan) {
+					return true
+				}
+			}
+		}
+		return false
+	}
+	n := 0
+	eachInstr(fn, func(in ssa.Instruction) {
+		if _, ok := in.(*ssa.Send); !ok {
+			return
+		}
+		n++
+		r.Check(MustPrecede(fn, isRecv, in), rule, fmt.Sprintf("%s / the stop function's result is looked at on every way to report #%d", fname, n), "a receive (or select with a receive) on the control function's result channel precedes the report",
+			"the report is reachable without looking at the stop function's result channel: when the wait times out because a worker outlives the stop, a stop function that already failed or panicked is reported as a clean stop - Shutdown returns nil and the failure status is not set", c.Pos(in.Pos()))
+	})
+	if n == 0 {
+		r.Undecided(rule, fname, "no report send found")
+	}
+}
+
+func c07R22(c *Ctx, r *Report) {
+	found := false
+	for _, s := range c.StoresTo("modules.Task", "maxDelay") {
+		if fnKey(outerFn(s.Fn)) == "modules.(*Module).newTask" {
+			found = true
+		}
+	}
+	if !found && c.Func("modules.(*Module).newTask") != nil {
+		r.Bad("C07-R22", "modules.(*Module).newTask / a new task starts with the default maximum delay", "newTask does not set the maximum delay at all (0 means none): once the task is due it is started by the scheduler directly, beside the task that is running and ahead of the prioritized queue")
+		return
+	}
+	storeOriginRule(c, r, "C07-R22", "modules.Task", "maxDelay", []string{"modules.(*Module).newTask"}, func(o string) bool { return strings.HasPrefix(o, "const:") && o != "const:0" }, "a new task starts with the default maximum delay",
+		"a new task is created without the default maximum delay (0 means none): once it is due it is started by the scheduler directly, beside the task that is running and ahead of the prioritized queue", 1)
+}
+
+// everyIterationRule: in fname every iteration of the loop passes an instruction accepted by pred.
+func everyIterationRule(c *Ctx, r *Report, rule, fname, what, why string, pred func(ssa.Instruction) bool) {
+	r.SetFloor(rule, 1)
+	fn := c.Func(fname)
+	if fn == nil {
+		r.Undecided(rule, fname, "anchor function missing")
+		return
+	}
+	found, path := everyIteration(fn, pred)
+	if !found {
+		r.Undecided(rule, fname, "the per-iteration operation was not found")
+		return
+	}
+	r.Check(path == nil, rule, fname+" / "+what, "every iteration passes it", why, c.pathString(path)...)
+}
+
+func c07R23(c *Ctx, r *Report) {
+	everyIterationRule(c, r, "C07-R23", "modules.(*Module).markDependencies", "every dependency is marked as needed",
+		"a dependency is skipped by the marking loop: a module that is both enabled and needed by another enabled module loses enabledAsDependency; after it is disabled it stays online (it is needed) but OnlineSoon() is false until the next management run, so its tasks are refused or dropped",
+		isAboolCallOnFieldSuffix("enabledAsDependency", "SetToIf"))
+}
+
+func isAboolCallOnFieldSuffix(field, method string) func(ssa.Instruction) bool {
+	return func(in ssa.Instruction) bool {
+		ci, ok := in.(*ssa.Call)
+		if !ok || !strings.HasSuffix(calleeName(ci.Common()), "AtomicBool."+method) {
+			return false
+		}
+		args := callArgs(ci.Common())
+		if len(args) == 0 {
+			return false
+		}
+		u, ok := args[0].(*ssa.UnOp)
+		if !ok || u.Op != token.MUL {
+			return false
+		}
+		fr, ok := fieldOfAddr(u.X)
+		return ok && fr.Name == field
+	}
+}
+
+func c19R28(c *Ctx, r *Report) {
+	everyIterationRule(c, r, "C19-R28", "updater.(*ResourceRegistry).SelectVersions", "every resource is re-selected",
+		"a resource is skipped by SelectVersions: the documented order is not applied to it - in dev mode the locally available dev version does not replace a still selectable current release",
+		isInvokeOrCallNamed("updater.Resource.selectVersion"))
+}
+
+func c08R17(c *Ctx, r *Report) {
+	storeOriginRule(c, r, "C08-R17", "database/record.Wrapper", "Format", []string{"database/record.NewWrapper"}, func(o string) bool { return o == "param:format" }, "NewWrapper stores the format it is given",
+		"NewWrapper stores another format than the caller's: format identifier 0 (or whatever value is taken for unset) does not come back from the stored form", 1)
+}
+
+// c09R19: MimeDump reports success only with the output of the serializer.
+func c09R19(c *Ctx, r *Report) {
+	const rule = "C09-R19"
+	r.SetFloor(rule, 1)
+	const fname = "formats/dsd.MimeDump"
+	fn := c.Func(fname)
+	if fn == nil {
+		r.Undecided(rule, fname, "anchor function missing")
+		return
+	}
+	n := 0
+	eachInstr(fn, func(in ssa.Instruction) {
+		ret, ok := in.(*ssa.Return)
+		if !ok || len(ret.Results) != 4 {
+			return
+		}
+		errV := retVal(ret, 3)
+		if isNilConst(errV) {
+			n++
+			// a nil error is fine behind the test of the serializer's own error
+			var guards []Guard
+			eachInstr(fn, func(x ssa.Instruction) {
+				if ex, ok := x.(*ssa.Extract); ok && ex.Index == 1 {
+					if call, ok := ex.Tuple.(*ssa.Call); ok && strings.Contains(calleeName(call.Common()), "dumpWithoutIdentifier") {
+						e := ssa.Value(ex)
+						guards = append(guards, Guard{Name: "serializer error == nil", Truthy: false, Match: func(b ssa.Value) bool { return b == e }})
+					}
+				}
+			})
+			if len(guards) > 0 && ReachTargetAvoiding(fn, ret, guards, nil) == nil {
+				r.OK(rule, fmt.Sprintf("%s / success is reported with the serializer's error only (#%d)", fname, n), "nil is returned behind the test of the serializer's error")
+				return
+			}
+			r.Bad(rule, fmt.Sprintf("%s / success is reported with the serializer's error only (#%d)", fname, n), "MimeDump returns a constant nil error: a value is reported as dumped without having gone through the serializer (an untyped nil value leaves the body empty under a content type whose loader rejects an empty body)", c.Pos(ret.Pos()))
+			return
+		}
+		fromDump := false
+		for _, o := range c.Origins(errV) {
+			if strings.Contains(o, "dumpWithoutIdentifier") {
+				fromDump = true
+			}
+		}
+		if fromDump {
+			n++
+			r.OK(rule, fmt.Sprintf("%s / success is reported with the serializer's error only (#%d)", fname, n), "the returned error is the serializer's")
+		}
+	})
+	if n == 0 {
+		r.Undecided(rule, fname, "no return with the serializer's error found")
+	}
+}
+
+// lookupOnlyIn: the global map is read only in the listed functions.
+func lookupOnlyIn(c *Ctx, r *Report, rule, global string, allowed []string, why string, floor int) {
+	r.SetFloor(rule, floor)
+	for _, fn := range c.AllFuncs() {
+		if fn.Blocks == nil {
+			continue
+		}
+		i := 0
+		eachInstr(fn, func(in ssa.Instruction) {
+			lk, ok := in.(*ssa.Lookup)
+			if !ok || !strings.HasSuffix(vpath(lk.X), global) {
+				return
+			}
+			i++
+			fk := fnKey(outerFn(fn))
+			r.Check(inList(fk, allowed), rule, fmt.Sprintf("%s read in %s #%d", global, fk, i), "reader is in the table", why, c.Pos(lk.Pos()))
+		})
+	}
+}
+
+func c09R20(c *Ctx, r *Report) {
+	lookupOnlyIn(c, r, "C09-R20", "dsd.MimeTypeToFormat", []string{"formats/dsd.FormatFromAccept"},
+		"the mime type table is consulted outside FormatFromAccept, which is where a header value is normalised (lower case, parameters cut, wildcards and the default resolved): a content type in another spelling (`application/JSON`) or an empty one is refused although the dump side would have produced it", 1)
+}
+
+// noSliceNilCompare: in the packages no byte slice is compared with nil (lengths decide).
+func noSliceNilCompare(rule, why string, pkgs ...string) ruleFn {
+	return func(c *Ctx, r *Report) {
+		n := 0
+		for _, fn := range funcsOfPkgs(c, pkgs...) {
+			if fn.Blocks == nil {
+				continue
+			}
+			eachInstr(fn, func(in ssa.Instruction) {
+				bo, ok := in.(*ssa.BinOp)
+				if !ok || (bo.Op != token.EQL && bo.Op != token.NEQ) {
+					return
+				}
+				var other ssa.Value
+				switch {
+				case isNilConst(bo.X):
+					other = bo.Y
+				case isNilConst(bo.Y):
+					other = bo.X
+				default:
+					return
+				}
+				sl, ok := other.Type().Underlying().(*types.Slice)
+				if !ok {
+					return
+				}
+				if b, ok := sl.Elem().Underlying().(*types.Basic); !ok || b.Kind() != types.Byte && b.Kind() != types.Uint8 {
+					return
+				}
+				n++
+				r.Bad(rule, fnKey(fn)+" / a byte slice is compared with nil", why, c.Pos(bo.Pos()))
+			})
+		}
+		if n == 0 {
+			r.Trivial(rule, strings.Join(pkgs, ", ")+" / no byte slice is compared with nil", "lengths decide everywhere")
+		}
+	}
+}
+
+// c04R22: valueCache.getData returns the value of the option's type on every path of that type's case.
+func c04R22(c *Ctx, r *Report) {
+	const rule = "C04-R22"
+	r.SetFloor(rule, 4)
+	const fname = "config.(*valueCache).getData"
+	fn := c.Func(fname)
+	if fn == nil {
+		r.Undecided(rule, fname, "anchor function missing")
+		return
+	}
+	for _, b := range fn.Blocks {
+		if len(b.Instrs) == 0 {
+			continue
+		}
+		iff, ok := b.Instrs[len(b.Instrs)-1].(*ssa.If)
+		if !ok {
+			continue
+		}
+		cond, ok := iff.Cond.(*ssa.BinOp)
+		if !ok || cond.Op != token.EQL {
+			continue
+		}
+		k, isC := constInt(cond.Y)
+		if !isC || k < 1 || k > 4 {
+			continue // the four value-carrying option types
+		}
+		body := b.Succs[0]
+		var bad []string
+		for _, d := range fn.Blocks {
+			if d != body && !body.Dominates(d) {
+				continue
+			}
+			for _, in := range d.Instrs {
+				if ret, ok := in.(*ssa.Return); ok && len(ret.Results) == 1 && isNilConst(retVal(ret, 0)) {
+					bad = append(bad, c.Pos(ret.Pos()))
+				}
+			}
+		}
+		r.Check(len(bad) == 0, rule, fmt.Sprintf("%s / option type %d always yields its value", fname, k), "no nil return in the case of a value-carrying type",
+			"getData returns nil (\"unset\") for a value of a value-carrying option type: a legitimately set value of that shape (the empty list) is written to the file as null, refused on load, and the option falls back to its default", bad...)
+	}
+}
+
+// c02R29: the badger query hands out records built from a copy of the item's value.
+func c02R29(c *Ctx, r *Report) {
+	const rule = "C02-R29"
+	r.SetFloor(rule, 1)
+	root := c.Func("database/storage/badger.(*Badger).queryExecutor")
+	if root == nil {
+		r.Undecided(rule, "database/storage/badger.(*Badger).queryExecutor", "anchor function missing")
+		return
+	}
+	n := 0
+	for _, fn := range withAnons(root) {
+		eachInstr(fn, func(in ssa.Instruction) {
+			var sent []ssa.Value
+			switch x := in.(type) {
+			case *ssa.Send:
+				sent = append(sent, x.X)
+			case *ssa.Select:
+				for _, st := range x.States {
+					if st.Dir == types.SendOnly {
+						sent = append(sent, st.Send)
+					}
+				}
+			}
+			for _, v := range sent {
+				if !strings.Contains(v.Type().String(), "record.Record") {
+					continue
+				}
+				n++
+				copied := false
+				for _, l := range c.Leaves(v) {
+					call, ok := l.(*ssa.Call)
+					if !ok {
+						if ex, isEx := l.(*ssa.Extract); isEx {
+							call, ok = ex.Tuple.(*ssa.Call)
+						}
+					}
+					if !ok || call == nil || !strings.HasSuffix(calleeName(call.Common()), "record.NewRawWrapper") {
+						continue
+					}
+					for _, o := range c.Origins(call.Call.Args[2]) {
+						if strings.Contains(o, "ValueCopy") {
+							copied = true
+						}
+					}
+				}
+				r.Check(copied, rule, fmt.Sprintf("%s / record sent to the iterator #%d is built from Item.ValueCopy", fnKey(fn), n), "NewRawWrapper(..., item.ValueCopy(...))",
+					"the record handed to the consumer is built on the item's own value buffer, which badger recycles as the iterator moves on: a consumer that still holds the record ~100 items later reads another record's bytes under this key", c.Pos(in.Pos()))
+			}
+		})
+	}
+	if n == 0 {
+		r.Undecided(rule, fnKey(root), "no send of a record found")
+	}
+}
+
+// c11R27: the condition printers print keys and values through escapeString.
+func c11R27(c *Ctx, r *Report) {
+	const rule = "C11-R27"
+	r.SetFloor(rule, 4)
+	for _, fn := range funcsOfPkgs(c, "database/query") {
+		if fn.Blocks == nil || fn.Name() != "string" {
+			continue
+		}
+		for i, ci := range callsIn(fn, "fmt.Sprintf") {
+			call, ok := ci.(*ssa.Call)
+			if !ok || len(call.Call.Args) < 2 {
+				continue
+			}
+			sl, ok := call.Call.Args[1].(*ssa.Slice)
+			if !ok {
+				continue
+			}
+			var raw []string
+			for _, l := range variadicElems(c, sl, 0) {
+				d := leafDesc(l)
+				if strings.HasSuffix(d, ".key") || (strings.HasSuffix(d, ".value") && isStringType(l.Type())) {
+					raw = append(raw, d)
+				}
+			}
+			r.Check(len(raw) == 0, rule, fmt.Sprintf("%s / Sprintf #%d prints key and value through escapeString", fnKey(fn), i+1), "no raw key / string value among the printed values",
+				"the printer writes "+strings.Join(raw, ", ")+" as it is on some path: a key or value with a parenthesis, tab, quote or backslash prints to a text that does not parse back (or parses to another token)", c.Pos(call.Pos()))
+		}
+	}
+}
+
+// c11R28: a regex condition that keeps the caller's operator carries a compiled expression.
+func c11R28(c *Ctx, r *Report) {
+	const rule = "C11-R28"
+	r.SetFloor(rule, 1)
+	const fname = "database/query.newRegexCondition"
+	fn := c.Func(fname)
+	if fn == nil {
+		r.Undecided(rule, fname, "anchor function missing")
+		return
+	}
+	n := 0
+	eachInstr(fn, func(in ssa.Instruction) {
+		al, ok := in.(*ssa.Alloc)
+		if !ok || !strings.HasSuffix(al.Type().String(), "query.regexCondition") || al.Referrers() == nil {
+			return
+		}
+		hasRegex, keepsOperator := false, false
+		for _, ref := range *al.Referrers() {
+			fa, ok := ref.(*ssa.FieldAddr)
+			if !ok || fa.Referrers() == nil {
+				continue
+			}
+			name := fieldName(fa.X.Type(), fa.Field)
+			for _, r2 := range *fa.Referrers() {
+				st, ok := r2.(*ssa.Store)
+				if !ok {
+					continue
+				}
+				if name == "regex" {
+					hasRegex = true
+				}
+				if name == "operator" {
+					for _, o := range c.Origins(st.Val) {
+						if strings.HasPrefix(o, "param:") {
+							keepsOperator = true
+						}
+					}
+				}
+			}
+		}
+		if !keepsOperator {
+			return
+		}
+		n++
+		r.Check(hasRegex, rule, fmt.Sprintf("%s / condition #%d with the caller's operator carries the compiled expression", fname, n), "regex is set",
+			"a regex condition is returned with the caller's operator but without a compiled expression: it passes its check and parses, and panics on the nil expression when it is printed or matched", c.Pos(al.Pos()))
+	})
+	if n == 0 {
+		r.Undecided(rule, fname, "no condition with the caller's operator found")
+	}
+}
+
+func isStringType(t types.Type) bool {
+	b, ok := t.Underlying().(*types.Basic)
+	return ok && b.Kind() == types.String
+}
+
+func c12R21(c *Ctx, r *Report) {
+	const rule = "C12-R21"
+	r.SetFloor(rule, 1)
+	n := 0
+	for _, fn := range funcsOfPkgs(c, "api") {
+		eachInstr(fn, func(in ssa.Instruction) {
+			if !isStoreToGlobal("api.devMode")(in) {
+				return
+			}
+			n++
+			var other []string
+			for _, o := range c.Origins(in.(*ssa.Store).Val) {
+				if !strings.Contains(o, "GetAsBool") {
+					other = append(other, o)
+				}
+			}
+			r.Check(len(other) == 0, rule, fnKey(outerFn(fn))+" / devMode is the configuration's own getter", "devMode = config.Concurrent.GetAsBool(...)",
+				"devMode is not the configuration getter itself ("+strings.Join(other, ", ")+"): a wrapper that remembers the first answer keeps granting full access (and the development CORS exception) after development mode was switched off", c.Pos(in.Pos()))
+		})
+	}
+	if n == 0 {
+		r.Undecided(rule, "api.devMode", "no store to devMode found")
+	}
+}
+
+// c20R14: the package level table is replaced, never emptied in place (it is the caller's map).
+func c20R14(c *Ctx, r *Report) {
+	const rule = "C20-R14"
+	n := 0
+	for _, fn := range funcsOfPkgs(c, "log") {
+		eachInstr(fn, func(in ssa.Instruction) {
+			isTable := func(v ssa.Value) bool { return strings.HasSuffix(vpath(v), "log.pkgLevels") }
+			switch x := in.(type) {
+			case *ssa.MapUpdate:
+				if isTable(x.Map) {
+					n++
+					r.Bad(rule, fnKey(outerFn(fn))+" / writes into the package level table in place", "the table is the map the application handed to SetPkgLevels: changing it in place changes the application's map, and setting the same map again installs the changed table", c.Pos(in.Pos()))
+				}
+			case ssa.CallInstruction:
+				if b, ok := x.Common().Value.(*ssa.Builtin); ok && b.Name() == "delete" && len(x.Common().Args) == 2 && isTable(x.Common().Args[0]) {
+					n++
+					r.Bad(rule, fnKey(outerFn(fn))+" / deletes from the package level table in place", "the table is the map the application handed to SetPkgLevels: emptying it in place empties the application's map, and setting the same map again installs an empty table - the per-package levels the application set are not in force", c.Pos(in.Pos()))
+				}
+			}
+		})
+	}
+	if n == 0 {
+		r.Trivial(rule, "log / the package level table is only replaced as a whole", "no in-place write or delete on log.pkgLevels")
+	}
+}
+
+// c14R20: Exists reads through Get, so that the get hooks see the read.
+func c14R20(c *Ctx, r *Report) {
+	const rule = "C14-R20"
+	r.SetFloor(rule, 1)
+	const fname = "database.(*Interface).Exists"
+	fn := c.Func(fname)
+	if fn == nil {
+		r.Undecided(rule, fname, "anchor function missing")
+		return
+	}
+	x := ReachInstr(fn, nil, isExit, func(in ssa.Instruction) bool {
+		ci, ok := in.(*ssa.Call)
+		if !ok {
+			return false
+		}
+		n := calleeName(ci.Common())
+		return n == "database.Interface.Get" || n == "database.Interface.getRecord" || n == "database.Controller.Get"
+	})
+	r.Check(x == nil, rule, fname+" / the read goes through the record get", "every return is preceded by Get / getRecord",
+		"Exists answers from the metadata alone on some path: the PreGet / PostGet hooks registered for the key are not called for this read and cannot veto it", posOf(c, x))
+}
+
+// c17R15: the fstree backend reads a record file in one piece.
+func c17R15(c *Ctx, r *Report) {
+	const rule = "C17-R15"
+	r.SetFloor(rule, 2)
+	for _, fn := range funcsOfPkgs(c, "database/storage/fstree") {
+		if fn.Blocks == nil {
+			continue
+		}
+		for i, ci := range callsIn(fn, "database/record.NewRawWrapper") {
+			call, ok := ci.(*ssa.Call)
+			if !ok || len(call.Call.Args) < 3 {
+				continue
+			}
+			var other []string
+			for _, o := range c.Origins(call.Call.Args[2]) {
+				if o != "call:os.ReadFile#0" && o != "call:io.ReadAll#0" {
+					other = append(other, o)
+				}
+			}
+			r.Check(len(other) == 0, rule, fmt.Sprintf("%s / record #%d is parsed from os.ReadFile's result", fnKey(outerFn(fn)), i+1), "the data comes from os.ReadFile",
+				"the record file is not read in one piece ("+strings.Join(other, ", ")+"): with a size taken earlier (from the directory walk) a file replaced in between is read as a truncated prefix of its new content, or the query fails with an unexpected EOF", c.Pos(call.Pos()))
+		}
+	}
+}
+
+func init() {
+	extend("C01", "(R18) A30 over package modules: no inner := of an outer same-typed variable that is read after the block (the outer variable would keep its old value).", shadowRule("C01-R18", "an inner := declares a new variable, the outer one that is read afterwards keeps its old (zero) value: the error or result computed in the block is lost", "modules"))
+	extend("C03", "(R17) A30 over the database packages; (R18) who-may-call table of Interface.checkCache.", shadowRule("C03-R17", "an inner := declares a new variable, the outer one that is read afterwards keeps its old (nil) value: a nil metadata reads as 'not found', and a write that is guarded by the permission check on the existing record's metadata goes through unchecked", "database", "database/record", "database/query", "database/storage/hashmap", "database/storage/bbolt", "database/storage/badger", "database/storage/fstree", "runtime", "notifications"),
+		func(c *Ctx, r *Report) {
+			whoMayCallRule(c, r, "C03-R18", 2, "database.Interface.checkCache", []string{"database.(*Interface).getRecord", "database.(*Interface).getMeta"},
+				"the read cache is consulted outside getRecord / getMeta, which are where a cached record's permission is checked against the interface's options on every access: a record that was re-flagged secret after it was cached is handed out")
+		})
+	extend("C02", "(R29) the badger query builds the records it hands out on Item.ValueCopy.", c02R29)
+	extend("C04", "(R22) valueCache.getData returns no nil in the case of a value-carrying option type.", c04R22)
+	extend("C05", "(R18) every store to Module.Ctx is the result of context.WithCancel; (R19) runWorker calls the worker function on every path to a return.", c05R18, c05R19)
+	extend("C06", "(R21) stopAllTasks looks at the stop function's result channel on every way to its report.", c06R21)
+	extend("C07", "(R22) newTask stores a non-zero constant maximum delay; (R23) markDependencies marks every dependency.", c07R22, c07R23)
+	extend("C08", "(R17) NewWrapper stores the format parameter.", c08R17)
+	extend("C09", "(R19) MimeDump returns no constant nil error; (R20) MimeTypeToFormat is read in FormatFromAccept only.", c09R19, c09R20)
+	extend("C10", "(R13) = C16-R22: package container compares no byte slice with nil.", noSliceNilCompare("C10-R13", "a nil slice is taken for 'nothing there' although it is also what a zero-length result looks like: a zero-length request or block is refused, after its length prefix was already consumed", "container"))
+	extend("C16", "(R22) package container compares no byte slice with nil (lengths decide).", noSliceNilCompare("C16-R22", "a nil slice is taken for 'nothing there' although it is also what a zero-length result looks like: a zero-length request or block is refused, after its length prefix was already consumed", "container"))
+	extend("C11", "(R27) every condition printer passes keys and string values through escapeString on every path; (R28) a regex condition built with the caller's operator carries the compiled expression.", c11R27, c11R28)
+	extend("C12", "(R21) api.devMode is the configuration getter itself; (R22) A31 over package api: hand-written struct copies are complete.", c12R21, partialCopyRule("C12-R22", "a field-by-field copy leaves a field at its zero value", "api"))
+	extend("C14", "(R19) = C03-R12 (the metadata object of a record is never replaced, so flags survive PutNew); (R20) Exists reads through Get.", borrowRule(c03R12, "C03-R12", "C14-R19", 1, nil), c14R20)
+	extend("C15", "(R14) A32: a function of package modules named for one priority uses that priority's constants.", c15R14)
+	extend("C17", "(R15) the fstree backend parses records from os.ReadFile's result.", c17R15)
+	extend("C19", "(R28) SelectVersions re-selects every resource; (R29) A31 over package updater: hand-written struct copies are complete.", c19R28, partialCopyRule("C19-R29", "a field-by-field copy of an index or resource leaves a field at its zero value: an index registered as pre-release is taken for a stable one, its versions are selected and counted as stable", "updater"))
+	extend("C20", "(R14) log.pkgLevels is never written or emptied in place.", c20R14)
+}
